@@ -920,6 +920,7 @@ func (s *Store) delete(gvk schema.GroupVersionKind, call Call, do client.DeleteO
 	}
 	rec.Before = deepCopy(live)
 	if len(fins) == 0 {
+		s.bury(k, e)
 		delete(s.objs, k)
 		rec.Effective, rec.Deleted = true, true
 		return nil
